@@ -1079,3 +1079,105 @@ func wifEncodeFor(k []byte, v byte, compressed bool) (string, error) {
 	}
 	return wif.EncodeUncompressed(k, v)
 }
+
+func init() {
+	// C02: coinbase-shaped transactions (one input spending the null outpoint), legacy and segwit: their
+	// txid and wtxid are hashes of their serialisations like everybody else's
+	regExtra("C02", func(r *Runner) {
+		for i := 0; i < r.N(6, 60); i++ {
+			t, _ := r.genTx(1, 3)
+			t.Inputs = t.Inputs[:1]
+			t.Inputs[0].PrevOut.Hash = [32]byte{}
+			t.Inputs[0].PrevOut.Index = 0xffffffff
+			if i%2 == 0 {
+				t.Witnesses = []tx.Witness{{r.bytesN(32)}}
+			} else {
+				t.Witnesses = nil
+			}
+			if b := t.Bytes(); b != nil {
+				r.Do("tx.dec", []string{hx(b)}, "coinbase-shaped", true, "one input spending the null outpoint")
+			}
+		}
+	})
+	// C03: script codes that look like standard templates (they are hashed as given, never rewritten)
+	regExtra("C03", func(r *Runner) {
+		h20, h32 := r.bytesN(20), r.bytesN(32)
+		shapes := [][]byte{
+			append([]byte{0x00, 0x14}, h20...),                                           // P2WPKH program
+			append([]byte{0x00, 0x20}, h32...),                                           // P2WSH program
+			append([]byte{0x51, 0x20}, h32...),                                           // P2TR program
+			append(append([]byte{0x76, 0xa9, 0x14}, h20...), 0x88, 0xac),                 // P2PKH
+			append(append([]byte{0xa9, 0x14}, h20...), 0x87),                             // P2SH
+			append([]byte{0x6a, 0x04}, 1, 2, 3, 4),                                       // OP_RETURN
+			append(append([]byte{0x51, 0x21}, append([]byte{2}, h32...)...), 0x51, 0xae), // 1-of-1 multisig
+		}
+		for _, sc := range shapes {
+			t, _ := r.genTx(2, 2)
+			enc := hx(t.Bytes())
+			for _, ht := range []uint32{1, 2, 3, 0x81, 0x83} {
+				for _, nIn := range []int{0, len(t.Inputs) - 1} {
+					args := []string{enc, strconv.Itoa(nIn), hx(sc), strconv.FormatUint(uint64(ht), 10)}
+					r.Do("sighash.legacy", args, "legacy-template-script-code", true, "")
+					r.Do("sighash.legacy.spec", args, "legacy-template-script-code-spec", true, "")
+					wargs := append(append([]string{}, args...), strconv.FormatUint(r.u64(), 10))
+					r.Do("sighash.bip143", wargs, "bip143-template-script-code", true, "")
+					r.Do("sighash.bip143.spec", wargs, "bip143-template-script-code-spec", true, "")
+				}
+			}
+		}
+	})
+	// C05: valid ECDSA signatures with a chosen s at the ends of the range (s = n-1, n-2, 1, 2, (n-1)/2,
+	// (n+1)/2): r = x(kG) mod n, d = (s*k - z)/r mod n, public key dG
+	regExtra("C05", func(r *Runner) {
+		n := ekliptic.Secp256k1_CurveOrder
+		one := big.NewInt(1)
+		half := new(big.Int).Rsh(n, 1)
+		for i, s := range []*big.Int{new(big.Int).Sub(n, one), new(big.Int).Sub(n, big.NewInt(2)), one, big.NewInt(2), half, new(big.Int).Add(half, one)} {
+			k := new(big.Int).SetBytes(r.scalar(0))
+			z := new(big.Int).SetBytes(r.bytesN(32))
+			rx, _ := ecc.Curve.ScalarBaseMult(k.FillBytes(make([]byte, 32)))
+			rr := new(big.Int).Mod(rx, n)
+			if rr.Sign() == 0 {
+				continue
+			}
+			d := new(big.Int).Mul(s, k)
+			d.Sub(d, z).Mod(d, n)
+			d.Mul(d, new(big.Int).ModInverse(rr, n)).Mod(d, n)
+			if d.Sign() == 0 {
+				continue
+			}
+			db := d.FillBytes(make([]byte, 32))
+			zb := new(big.Int).Mod(z, new(big.Int).Lsh(one, 256)).FillBytes(make([]byte, 32))
+			for _, pub := range [][]byte{ecc.GetPublicKeyCompressed(db), ecc.GetPublicKeyUncompressed(db)} {
+				args := []string{hx(pub), hx(zb), hx(rr.FillBytes(make([]byte, 32))), hx(s.FillBytes(make([]byte, 32)))}
+				r.Do("ecdsa.verify", args, "ecdsa-chosen-s", true, fmt.Sprintf("valid signature with chosen s #%d", i))
+				r.Do("ecdsa.verify.spec", args, "ecdsa-chosen-s-spec", true, "")
+			}
+		}
+	})
+	// C10: lot and sequence at the ends of their ranges, zero included
+	regExtra("C10", func(r *Runner) {
+		for _, ls := range [][2]int{{0, 0}, {0, 1}, {1, 0}, {1048575, 4095}} {
+			r.Do("bip38.icodelot", []string{hx(r.bytesN(4)), sx("edge"), strconv.Itoa(ls[0]), strconv.Itoa(ls[1])}, "bip38-icode-lot-edge", true, "")
+		}
+	})
+	// C13: dead keys whose x coordinate has a leading zero byte; a pre-hashed leaf of 32 zero (and 32 0xff) bytes
+	regExtra("C13", func(r *Runner) {
+		found := 0
+		for ctr := 1; ctr < 6000 && found < r.N(2, 6); ctr++ {
+			proof := sha256.Sum256([]byte(fmt.Sprintf("dead-proof-%d", ctr)))
+			proof[0] &= 0x7f
+			key := taproot.BuildDeadKey(proof[:])
+			if len(key) < 32 || key[0] == 0 {
+				r.Do("dead.build", []string{hx(proof[:])}, "dead/key-leading-zero", true, "dead key x with a leading zero byte")
+				r.Do("dead.verify", []string{hx(new(big.Int).SetBytes(key).FillBytes(make([]byte, 32))), hx(proof[:])}, "dead/key-leading-zero", true, "")
+				found++
+			}
+		}
+		pk := ecc.GetPublicKeySchnorr(r.scalar(0))
+		for _, leaf := range []string{strings.Repeat("00", 32), strings.Repeat("ff", 32), strings.Repeat("00", 31) + "01"} {
+			r.Do("tap.p2tr", []string{hx(pk), "H:" + leaf}, "p2tr/edge-prehashed-leaf", true, "a pre-hashed leaf with an edge value as the whole tree")
+			r.Do("tap.p2tr", []string{hx(pk), "B(H:" + leaf + ",H:" + leaf + ")"}, "p2tr/edge-prehashed-leaf", true, "")
+		}
+	})
+}
